@@ -115,7 +115,14 @@ class Infidelity(MetricBase):
         :rtype: float
         """
 
-        if self.target.rep_type == "s":
+        if self.target.rep_type == "s" and state.rep_type == "dm":
+            # a density matrix can only be converted to a stabilizer when it is a graph state, whereas every
+            # stabilizer target has an exact density matrix: compare in the density-matrix representation
+            tmp_target = self.target.copy()
+            tmp_target.convert_representation("dm")
+            fid = dmf.fidelity(tmp_target.rep_data.data, state.rep_data.data)
+
+        elif self.target.rep_type == "s":
             if state.rep_type == "s":
                 rep_data = state.rep_data
             else:
